@@ -197,6 +197,18 @@ func runC09Scenario(sc *c09Scenario, strat rt.Strategy) (*rt.Controller, *mock.T
 	return c, tr
 }
 
+// a lock acquisition in handler.go (the message lock), as opposed to channel.go's write lock
+func isMsgLock(point string) bool {
+	if !strings.HasSuffix(point, ".lock") {
+		return false
+	}
+	switch strings.TrimSuffix(point, ".lock") {
+	case "write1", "Writev", "CtxWrite1", "CtxWritev", "Write1":
+		return false
+	}
+	return true
+}
+
 func printC09(sc *c09Scenario, frames [][][]byte, c *rt.Controller, tr *mock.Transport) {
 	emit("C09 cfg %d %d %s", b2i(sc.sync), sc.qcap, sc.pipeline)
 	for ti, ms := range sc.threads {
@@ -209,14 +221,14 @@ func printC09(sc *c09Scenario, frames [][][]byte, c *rt.Controller, tr *mock.Tra
 	}
 	for _, s := range c.Steps {
 		// only what the monitor uses: lock acquisitions, call boundaries
-		if strings.HasSuffix(s.Point, "HandleWrite.lock") || len(s.Events) > 0 {
+		if isMsgLock(s.Point) || len(s.Events) > 0 {
 			var evs []string
 			for _, e := range s.Events {
 				if strings.HasPrefix(e, "begin:") || strings.HasPrefix(e, "ret:") {
 					evs = append(evs, e)
 				}
 			}
-			if strings.HasSuffix(s.Point, "HandleWrite.lock") || len(evs) > 0 {
+			if isMsgLock(s.Point) || len(evs) > 0 {
 				emit("C09 step %s %s %d %s", s.Tid, s.Point, s.Case, strings.Join(evs, " "))
 			}
 		}
@@ -231,7 +243,7 @@ func printC09(sc *c09Scenario, frames [][][]byte, c *rt.Controller, tr *mock.Tra
 
 func runC09(seed int64, count, scheds, dfsBound, dfsCap int) {
 	rng := rand.New(rand.NewSource(seed))
-	for i := 0; i < count; i++ {
+	for i := 0; i < count && rt.StuckTotal < 3; i++ {
 		sc := genC09(rng)
 		frames := make([][][]byte, len(sc.threads))
 		for ti, ms := range sc.threads {
@@ -254,7 +266,7 @@ func runC09(seed int64, count, scheds, dfsBound, dfsCap int) {
 			})
 			continue
 		}
-		for s := 0; s < scheds; s++ {
+		for s := 0; s < scheds && rt.StuckTotal < 3; s++ {
 			st := &rt.Random{State: uint64(seed)*1000003 + uint64(i)*7919 + uint64(s)*104729 + 1, Stickiness: []int{0, 50, 80, 95}[s%4]}
 			c, tr := runC09Scenario(sc, st)
 			emit("#case C09-%d-r%d", i, s)
